@@ -18,7 +18,7 @@ RULE = ("pairs: base maze of each of the 3 kinds on random grid shapes rows,cols
         "end (with a valid start) in [-3, rows+3] x [-3, cols+3] on 8 shapes (quick) through TargetedLatticeMaze(...), "
         ".from_lattice_maze and SolvedMaze(solution=...), plus random both-free pairs. Datasets: equal copies, one maze changed, "
         "length changed, config field changed, n_mazes changed. non-trivial = the two sides are distinct objects; "
-        "distinct = distinct canonical (variant, maze a, maze b) / (ctor, shape, start, end)")
+        "distinct = distinct canonical (variant, maze a, maze b) / (ctor, shape, start, end); later additions: endpoint / solution arrays that the caller overwrites after construction, far coordinates, hash history across interpreters")
 ASSUMPTIONS = ["CPython set/dict lookup = same hash then == (modelled by MZ.MV.setAdd; validated on every dedupe case)",
                "arrays hold integer / boolean values (no NaN, no object arrays); coordinates are 2-element integer sequences",
                "configuration equality (cfg == cfg) is taken as given by the dataclass-generated comparison of MazeDatasetConfig"]
